@@ -2,6 +2,7 @@
  * API wrappers (monitor above the library) and seed observation helpers. */
 #define _GNU_SOURCE
 #include "pv.h"
+#include <errno.h>
 #include <sched.h>
 #include <sys/mman.h>
 #include <unistd.h>
@@ -267,6 +268,8 @@ void pv_world_begin(const char* api) {
     if (pv_cur.api == NULL && strcmp(api, "polyseed_decode") && strcmp(api, "polyseed_decode_explicit") && strcmp(api, "polyseed_load") && strcmp(api, "polyseed_crypt")) pv_cur.in_ptr = NULL;
     pv_cur.api = api;
     __atomic_store_n(&pv_last_api, api, __ATOMIC_RELAXED);
+    /* ambient thread state the caller may legitimately have left behind: a stale errno from some unrelated earlier call */
+    { static const int E[] = { 0, EOVERFLOW, ERANGE, EINTR, ENOMEM, EINVAL, EILSEQ, EDOM, EAGAIN, ENOSYS }; errno = E[w->call_id % (sizeof E / sizeof *E)]; }
     pv_in_lib = 1;
 }
 void pv_world_end(void) { pv_in_lib = 0; pv_cur.api = NULL; __atomic_store_n(&pv_last_api, (const char*)NULL, __ATOMIC_RELAXED); }
@@ -284,22 +287,36 @@ void pv_set_rand_script(const void* bytes, int n) { pv_w->rand_mode = 1; memcpy(
 void pv_set_rand_prng(void) { pv_w->rand_mode = 0; }
 
 /* ------------------------------------------------------------------ API wrappers */
-void pv_api_inject(const polyseed_dependency* d) { pv_world_begin("polyseed_inject"); polyseed_inject(d); pv_world_end(); }
+/* The table a caller hands over has the size it had in the header that caller was compiled with: eight pointers at the pinned
+ * release.  Every injection goes through an exact-size heap copy of those eight pointers (red zone right behind it, scribbled over
+ * and freed as soon as the call returns), so a library that reads a ninth entry, or keeps the pointer, is seen by ASan/MSan */
+void pv_api_inject_raw(const polyseed_dependency* d) { pv_world_begin("polyseed_inject"); polyseed_inject(d); pv_world_end(); }
+void pv_api_inject(const polyseed_dependency* d) {
+    void* blk = malloc(PV_DEP_ABI_BYTES); if (!blk) pv_fatal("world: oom");
+    memcpy(blk, d, PV_DEP_ABI_BYTES);
+    pv_api_inject_raw((const polyseed_dependency*)blk);
+    memset(blk, 0x5a, PV_DEP_ABI_BYTES); free(blk);
+}
 #define PROBE_RET(r) pv_msan_probe(&(r), sizeof(r), "return value")
-int pv_api_enable_features(unsigned mask) { pv_world_begin("polyseed_enable_features"); int r = polyseed_enable_features(mask); PROBE_RET(r); pv_world_end(); return r; }
-polyseed_status pv_api_create(unsigned features, polyseed_data** out) { pv_world_begin("polyseed_create"); polyseed_status r = polyseed_create(features, out); PROBE_RET(r); if (r == POLYSEED_OK) pv_msan_probe(out, sizeof *out, "*seed_out"); pv_world_end(); return r; }
+/* The API is called by name, as applications call it, and every scalar argument is an expression with a side effect (v[k++]): a
+ * function evaluates each argument exactly once; a function-like macro laid over it in the header may not, and then the library
+ * receives one of the other, different, values and the ordinary oracles see the difference */
+#define ONCE(T, name, val) T name##_v[4] = { (T)(val), (T)((val) ^ 0x155), (T)((val) ^ 0x2aa), (T)((val) ^ 0x3ff) }; volatile int name##_k = 0
+#define ARG(name) name##_v[name##_k++ & 3]
+int pv_api_enable_features(unsigned mask) { pv_world_begin("polyseed_enable_features"); ONCE(unsigned, m, mask); int r = polyseed_enable_features(ARG(m)); PROBE_RET(r); pv_world_end(); return r; }
+polyseed_status pv_api_create(unsigned features, polyseed_data** out) { pv_world_begin("polyseed_create"); ONCE(unsigned, f, features); polyseed_status r = polyseed_create(ARG(f), out); PROBE_RET(r); if (r == POLYSEED_OK) pv_msan_probe(out, sizeof *out, "*seed_out"); pv_world_end(); return r; }
 void pv_api_free(polyseed_data* s) { pv_world_begin("polyseed_free"); polyseed_free(s); pv_world_end(); }
 uint64_t pv_api_get_birthday(const polyseed_data* s) { pv_world_begin("polyseed_get_birthday"); uint64_t r = polyseed_get_birthday(s); PROBE_RET(r); pv_world_end(); return r; }
-unsigned pv_api_get_feature(const polyseed_data* s, unsigned mask) { pv_world_begin("polyseed_get_feature"); unsigned r = polyseed_get_feature(s, mask); PROBE_RET(r); pv_world_end(); return r; }
-void pv_api_keygen(const polyseed_data* s, unsigned coin, size_t n, uint8_t* out) { pv_world_begin("polyseed_keygen"); polyseed_keygen(s, (polyseed_coin)coin, n, out); if (n <= 4096) pv_msan_probe(out, n, "derived key (computed by the KDF monitor from the arguments the library passed)"); pv_world_end(); }
-size_t pv_api_encode(const polyseed_data* s, const polyseed_lang* l, unsigned coin, char* out) { pv_world_begin("polyseed_encode"); size_t r = polyseed_encode(s, l, (polyseed_coin)coin, out); PROBE_RET(r); pv_msan_probe_str(out, POLYSEED_STR_SIZE, "phrase written by polyseed_encode"); pv_world_end(); return r; }
+unsigned pv_api_get_feature(const polyseed_data* s, unsigned mask) { pv_world_begin("polyseed_get_feature"); ONCE(unsigned, m, mask); unsigned r = polyseed_get_feature(s, ARG(m)); PROBE_RET(r); pv_world_end(); return r; }
+void pv_api_keygen(const polyseed_data* s, unsigned coin, size_t n, uint8_t* out) { pv_world_begin("polyseed_keygen"); ONCE(unsigned, c, coin); size_t n_v[2] = { n, n ^ 16 }; volatile int n_k = 0; polyseed_keygen(s, (polyseed_coin)ARG(c), n_v[n_k++ & 1], out); if (n <= 4096) pv_msan_probe(out, n, "derived key (computed by the KDF monitor from the arguments the library passed)"); pv_world_end(); }
+size_t pv_api_encode(const polyseed_data* s, const polyseed_lang* l, unsigned coin, char* out) { pv_world_begin("polyseed_encode"); ONCE(unsigned, c, coin); size_t r = polyseed_encode(s, l, (polyseed_coin)ARG(c), out); PROBE_RET(r); pv_msan_probe_str(out, POLYSEED_STR_SIZE, "phrase written by polyseed_encode"); pv_world_end(); return r; }
 polyseed_status pv_api_decode(const char* str, unsigned coin, const polyseed_lang** lang_out, polyseed_data** out) {
     pv_cur.in_ptr = str; pv_cur.in_len = strlen(str);
-    pv_world_begin("polyseed_decode"); polyseed_status r = polyseed_decode(str, (polyseed_coin)coin, lang_out, out); PROBE_RET(r); if (r == POLYSEED_OK) pv_msan_probe(out, sizeof *out, "*seed_out"); if (r == POLYSEED_OK && lang_out) pv_msan_probe(lang_out, sizeof *lang_out, "*lang_out"); pv_world_end(); return r;
+    pv_world_begin("polyseed_decode"); ONCE(unsigned, c, coin); polyseed_status r = polyseed_decode(str, (polyseed_coin)ARG(c), lang_out, out); PROBE_RET(r); if (r == POLYSEED_OK) pv_msan_probe(out, sizeof *out, "*seed_out"); if (r == POLYSEED_OK && lang_out) pv_msan_probe(lang_out, sizeof *lang_out, "*lang_out"); pv_world_end(); return r;
 }
 polyseed_status pv_api_decode_explicit(const char* str, unsigned coin, const polyseed_lang* l, polyseed_data** out) {
     pv_cur.in_ptr = str; pv_cur.in_len = strlen(str);
-    pv_world_begin("polyseed_decode_explicit"); polyseed_status r = polyseed_decode_explicit(str, (polyseed_coin)coin, l, out); PROBE_RET(r); if (r == POLYSEED_OK) pv_msan_probe(out, sizeof *out, "*seed_out"); pv_world_end(); return r;
+    pv_world_begin("polyseed_decode_explicit"); ONCE(unsigned, c, coin); polyseed_status r = polyseed_decode_explicit(str, (polyseed_coin)ARG(c), l, out); PROBE_RET(r); if (r == POLYSEED_OK) pv_msan_probe(out, sizeof *out, "*seed_out"); pv_world_end(); return r;
 }
 void pv_api_store(const polyseed_data* s, uint8_t* storage) { pv_world_begin("polyseed_store"); polyseed_store(s, storage); pv_msan_probe(storage, 32, "bytes written by polyseed_store"); pv_world_end(); }
 polyseed_status pv_api_load(const uint8_t* storage, polyseed_data** out) {
